@@ -132,10 +132,36 @@ fn reply_stream_sep(ids: &[u64], bodies: &[Vec<String>], sep: &str) -> SymStream
     let mut s = SymStream::new();
     for (k, body) in bodies.iter().enumerate() {
         let id = ids.get(k).copied().unwrap_or(0);
+        if body.first().is_some_and(|b| b.starts_with("<error-")) {
+            // a negative reply: the symbols of the body are the children of its <rpc-error>, so that a cut or the end of
+            // the stream can fall between any two of them
+            let p = format!("{sep}<rpc-reply message-id=\"{id}\" xmlns=\"{BASE_NS}\"><rpc-error>");
+            s.push_msg(&p, body, "</rpc-error></rpc-reply>");
+            continue;
+        }
         let p = format!("{sep}<rpc-reply message-id=\"{id}\" xmlns=\"{BASE_NS}\"><data><!--");
         s.push_msg(&p, body, "--></data></rpc-reply>");
     }
     s
+}
+
+/// the value a request evaluates to, as the symbols of the body the peer wrote for it: the data of a positive reply,
+/// the children of the <rpc-error> of a negative one (which the library hands over as an error value)
+fn outcome_of(case: &Value, k: usize, r: Result<String, netconf::Error>) -> Value {
+    match r {
+        Ok(o) => json!({"out": "ok", "body": body_syms(&o)}),
+        Err(netconf::Error::RpcError(errs)) => {
+            let want = bodies_of(&case["bodies"]).get(k).cloned().unwrap_or_default();
+            let text = format!("{errs:?}");
+            // delivered if it is the error the peer wrote (type, tag, severity, message)
+            if want.first().is_some_and(|b| b.starts_with("<error-")) && text.contains("OperationFailed") && text.contains("the-message") {
+                json!({"out": "ok", "body": want})
+            } else {
+                json!({"out": "err", "err": "rpc-error", "detail": text.chars().take(100).collect::<String>()})
+            }
+        }
+        Err(e) => json!({"out": "err", "err": err_class(&e), "detail": e.to_string().chars().take(100).collect::<String>()}),
+    }
 }
 
 fn usizes(v: &Value) -> Vec<usize> {
@@ -227,7 +253,8 @@ async fn run_peer(io: &mut dyn PeerIo, case: &Value) {
             chunks.remove(0);
         }
     }
-    if !send_chunks(io, chunks, 0).await {
+    // "hello_pause_ms": a slow peer - the pieces of its hello are that far apart
+    if !send_chunks(io, chunks, case["hello_pause_ms"].as_u64().unwrap_or(0)).await {
         return;
     }
     if hclose != "none" {
@@ -742,7 +769,7 @@ async fn drive_session<T: netconf::transport::Transport>(
     case: &Value,
 ) -> Value {
     let mut ev = json!({});
-    let mut session = match timeout(WATCHDOG, est).await {
+    let mut session = match timeout(WATCHDOG + Duration::from_millis(case["hello_pause_ms"].as_u64().unwrap_or(0)), est).await {
         Err(_) => {
             ev["established"] = json!("timeout");
             return ev;
@@ -796,8 +823,7 @@ async fn drive_session<T: netconf::transport::Transport>(
                         hung = true;
                         results.push(json!({"out": "timeout"}));
                     }
-                    Ok(Ok(o)) => results.push(json!({"out": "ok", "body": body_syms(&o.to_string())})),
-                    Ok(Err(e)) => results.push(json!({"out": "err", "err": err_class(&e), "detail": e.to_string().chars().take(100).collect::<String>()})),
+                    Ok(r) => results.push(outcome_of(case, i, r.map(|o| o.to_string()))),
                 }
             }
         }
@@ -969,7 +995,7 @@ fn main() {
                         let mut out = child.stdout.take().unwrap();
                         let started = std::time::Instant::now();
                         let mut buf = Vec::new();
-                        let r = timeout(Duration::from_secs(12), async {
+                        let r = timeout(Duration::from_millis(12_000 + case["hello_pause_ms"].as_u64().unwrap_or(0)), async {
                             let _ = out.read_to_end(&mut buf).await;
                             child.wait().await
                         })
